@@ -12,7 +12,7 @@
      layout                        structures located by the model's decoders in the current file
      fields                        the field tables of file header and node header
      witness NAME                  the witness files of AdfWalk.v (valid oobw oobr cycle linkrec biglink abort tagscan stale
-                                   dct neglink hugelink toklink fmtneg dtov rtype dim sizes)
+                                   dct neglink hugelink toklink longfile fmtneg dtov rtype dim sizes)
      cfg BITS                      which repairs the modelled code contains: 11 characters 0/1 in the order of the record
                                    AdfCodec.fixes (snt dct link nest fmt tag dtov rtype dim short sizes); default = all 0
      enc dp B O | enc hex N V | enc snt EB EO name:b:o;... | enc dct EB EO sb:so:eb:eo;... | enc data EB EO HEX
@@ -156,7 +156,7 @@ let run () =
       let w = (match nm with "valid" -> wit_valid | "oobw" -> wit_oobw | "oobr" -> wit_oobr | "cycle" -> wit_cycle
                            | "linkrec" -> wit_linkrec | "biglink" -> wit_biglink | "abort" -> wit_abort
                            | "tagscan" -> wit_tagscan | "stale" -> wit_stale | "dct" -> wit_dct | "neglink" -> wit_neglink
-                           | "hugelink" -> wit_hugelink | "toklink" -> wit_toklink | "fmtneg" -> wit_fmtneg | "dtov" -> wit_dtov
+                           | "hugelink" -> wit_hugelink | "longfile" -> wit_longfile | "toklink" -> wit_toklink | "fmtneg" -> wit_fmtneg | "dtov" -> wit_dtov
                            | "rtype" -> wit_rtype | "dim" -> wit_dim | "sizes" -> wit_sizes | _ -> []) in
       Printf.printf "w %s\n" (hb w)
     | ["attr"] -> let a = attr () in Printf.printf "a old=%d fmt=%d os=%d\n" (if a.fa_old then 1 else 0) (int_of_z a.fa_fmt) (int_of_z a.fa_os)
